@@ -172,11 +172,12 @@ def set_table(ctx, rep, prog, op, rule, floor, desc, sizes=None):
     ncases = len(set((r["na"], r["nb"], r["inh"]) for r in rows))
     rep.rule(rule, min(floor, ncases) if floor else 0, desc)
     fn = "range::Range::" + op
+    pending = []
     for r in rows:
         if "sig" in r:
             rep.path((rule, r["sig"]))
         if "inconclusive" in r:
-            rep.inconc("%s: %s" % (rule, r["inconclusive"][0]), r["inconclusive"][1])
+            pending.append(r["inconclusive"])
             continue
         if not r["problems"]:
             rep.ok(rule)
@@ -191,7 +192,17 @@ def set_table(ctx, rep, prog, op, rule, floor, desc, sizes=None):
                     "extracted": str(r.get("actual")), "reference": str(r.get("expected"))})
     rep.analysed_item("range::Range::%s interpreted over interval tokens of a free Boolean algebra, sizes %s, %d cases"
                       % (op, sizes, len(rows)))
-    range_level1(ctx, rep, prog, op)
+    l1_ok = range_level1(ctx, rep, prog, op)
+    if pending:
+        if l1_ok:
+            # the implementation looks inside the alternatives (their bounds), which opaque interval tokens do not have:
+            # the concrete-interval table (all endpoint orderings, same list sizes) decided every case instead
+            rep.notes.append("%s: %d cases are outside the Boolean-algebra abstraction (%s); decided by R-L1-%s on concrete "
+                             "intervals" % (rule, len(pending), pending[0][0], op))
+            rep.rules[rule]["floor"] = 0
+        else:
+            for reason, where in pending[:20]:
+                rep.inconc("%s: %s" % (rule, reason), where)
     return rows
 
 
@@ -206,15 +217,19 @@ def range_level1(ctx, rep, prog, op):
     rows = intervals.range_table(prog, env, op, sizes, shapes)
     rep.rule(rule, 1000, "Range::%s on alternatives given as concrete two-sided intervals, all endpoint orderings" % op)
     fn = "range::Range::" + op
+    all_ok = True
     for r in rows:
         rep.path((rule, r["sig"]))
         if "inconclusive" in r:
             rep.inconc("%s: %s" % (rule, r["inconclusive"][0]), r["inconclusive"][1])
+            all_ok = False
             continue
         if not r["problems"]:
             rep.ok(rule)
             continue
+        all_ok = False
         kind, detail = r["problems"][0]
         rep.fail(rule, "%s|%s|A=%d,B=%d %s" % (fn, rule, r["na"], r["nb"], kind),
                  "%s: %s (%s)" % (kind, detail, r["key"]), where=r.get("ret"), actual=r.get("actual"), example=r.get("example"))
     rep.analysed_item("%s on %d concrete-interval cases (shapes %s)" % (fn, len(rows), shapes))
+    return all_ok and bool(rows)
